@@ -390,12 +390,24 @@ def run(ctx: Ctx):
     for x in clamps:
         gs = [(i, b) for (i, b) in _eifs2(x, d2i.node)]
         switch = [norm(i.test) for (i, b) in gs if b == "T" and norm(i.test) in d2i.params]
+        # `clamped if flag else raw`
+        for ie in ast.walk(x.value):
+            if isinstance(ie, ast.IfExp) and norm(ie.test) in d2i.params and any(
+                    isinstance(c_, ast.Call) and isinstance(c_.func, ast.Name) and c_.func.id in ("min", "max") for c_ in ast.walk(ie.body)) and not any(
+                    isinstance(c_, ast.Call) and isinstance(c_.func, ast.Name) and c_.func.id in ("min", "max") for c_ in ast.walk(ie.orelse)):
+                switch.append(norm(ie.test))
         if not switch:
             bad.append((x, "unconditionally"))
             continue
         pidx = d2i.params.index(switch[0]) - 1
+        # the parameter's default (positional defaults align with the end of the parameter list)
+        a_ = d2i.node.args
+        pos = [x.arg for x in a_.posonlyargs + a_.args]
+        dflt = None
+        if switch[0] in pos and len(pos) - pos.index(switch[0]) <= len(a_.defaults):
+            dflt = a_.defaults[len(a_.defaults) - (len(pos) - pos.index(switch[0]))]
         for c_ in sites:
-            passed = c_.args[pidx] if 0 <= pidx < len(c_.args) else next((k.value for k in c_.keywords if k.arg == switch[0]), None)
+            passed = c_.args[pidx] if 0 <= pidx < len(c_.args) else next((k.value for k in c_.keywords if k.arg == switch[0]), dflt)
             if not (isinstance(passed, ast.Constant) and passed.value is False):
                 bad.append((x, f"unless {switch[0]}=False is passed, and {norm(c_)[:50]} does not pass it"))
                 break
